@@ -137,8 +137,32 @@ func c03(c *Ctx) {
 		}
 	}
 	// ---- R2 jump-back operands
-	var fixerCall *ssa.Call // the call in the builder returning (fixedData, size, err)
-	eachInstr(tb, func(i ssa.Instruction) {
+	// The code generator (the function that calls the 3-result fixer and the jump-back emitter) may be the function that
+	// writes the placeholder or a helper of it: the write site is lifted to its callers to connect the two.
+	gen := tb
+	for _, f := range p.FuncsIn("internal/patch") {
+		hasFix, hasEmit := false, false
+		eachInstr(f, func(i ssa.Instruction) {
+			if cl, ok := i.(*ssa.Call); ok {
+				if cal := staticCallee(cl.Common()); cal != nil {
+					if relPkg(cal) == "internal/patch" && cal.Signature.Results().Len() == 3 {
+						hasFix = true
+					}
+					for _, e := range emitterFuncs(p) {
+						if e == cal {
+							hasEmit = true
+						}
+					}
+				}
+			}
+		})
+		if hasFix && hasEmit {
+			gen = f
+		}
+	}
+	lifted := p.liftSites(liftedSite{wsite.Fn, wsite.Call, []ssa.Value{wsite.AddrV, wsite.DataV}}, 3)
+	var fixerCall *ssa.Call // the call in the generator returning (fixedData, size, err)
+	eachInstr(gen, func(i ssa.Instruction) {
 		if cl, ok := i.(*ssa.Call); ok {
 			if cal := staticCallee(cl.Common()); cal != nil && relPkg(cal) == "internal/patch" && cal.Signature.Results().Len() == 3 {
 				fixerCall = cl
@@ -146,7 +170,7 @@ func c03(c *Ctx) {
 		}
 	})
 	var jb *ssa.Call
-	eachInstr(tb, func(i ssa.Instruction) {
+	eachInstr(gen, func(i ssa.Instruction) {
 		if cl, ok := i.(*ssa.Call); ok {
 			if cal := staticCallee(cl.Common()); cal != nil {
 				for _, e := range emitterFuncs(p) {
@@ -158,7 +182,7 @@ func c03(c *Ctx) {
 		}
 	})
 	if fixerCall == nil || jb == nil {
-		r.Und("C03.R2", "jump back in "+shortName(tb), p.Pos(tb.Pos()), "fixer call or jump-back emitter call not found in the trampoline builder")
+		r.Und("C03.R2", "jump back in "+shortName(gen), p.Pos(gen.Pos()), "fixer call or jump-back emitter call not found in the trampoline builder")
 	} else {
 		ext := func(k int) func(ssa.Value) bool {
 			return func(v ssa.Value) bool { ex, ok := v.(*ssa.Extract); return ok && ex.Tuple == ssa.Value(fixerCall) && ex.Index == k }
@@ -168,17 +192,35 @@ func c03(c *Ctx) {
 			return ok && isLenCall(cl) && dependsOn(cl.Call.Args[0], ext(0))
 		}
 		isParam := func(k int) func(ssa.Value) bool {
-			return func(v ssa.Value) bool { return v == ssa.Value(tb.Params[k]) }
+			return func(v ssa.Value) bool { return k >= 0 && v == ssa.Value(gen.Params[k]) }
 		}
-		// which param is the placeholder: the address of the text write
+		// which param of the generator is the placeholder: the one that is (or receives the same value as) the address of the text write
 		trIdx, orIdx := -1, -1
-		for k, pr := range tb.Params {
-			if resolveLocal(wsite.Call.Common().Args[0]) == ssa.Value(pr) {
-				trIdx = k
+		for _, ls := range lifted {
+			if ls.Vals[0] == nil {
+				continue
 			}
+			addr := resolveLocal(ls.Vals[0])
+			if ls.Fn == gen {
+				for k, pr := range gen.Params {
+					if addr == ssa.Value(pr) {
+						trIdx = k
+					}
+				}
+				continue
+			}
+			eachInstr(ls.Fn, func(i ssa.Instruction) {
+				if cl, ok := i.(*ssa.Call); ok && staticCallee(cl.Common()) == gen {
+					for k, a := range cl.Call.Args {
+						if resolveLocal(a) == addr {
+							trIdx = k
+						}
+					}
+				}
+			})
 		}
-		for k := range tb.Params {
-			if k != trIdx && isUintptr(tb.Params[k].Type()) {
+		for k := range gen.Params {
+			if k != trIdx && isUintptr(gen.Params[k].Type()) {
 				orIdx = k
 				break
 			}
@@ -188,9 +230,9 @@ func c03(c *Ctx) {
 		dep := func(v ssa.Value, t func(ssa.Value) bool) bool { return dependsOnCut(v, t, cut) }
 		ok0 := trIdx >= 0 && dep(a0, isParam(trIdx)) && dependsOn(a0, lenOfData) && !dep(a0, ext(1)) && !dep(a0, isParam(orIdx))
 		ok1 := orIdx >= 0 && dep(a1, isParam(orIdx)) && dep(a1, ext(1)) && !dependsOn(a1, lenOfData) && !dep(a1, isParam(trIdx))
-		r.Check(ok0, "C03.R2", "jump-back source in "+shortName(tb), p.Pos(posOf(jb)), "placeholder + len(relocated bytes)",
+		r.Check(ok0, "C03.R2", "jump-back source in "+shortName(gen), p.Pos(posOf(jb)), "placeholder + len(relocated bytes)",
 			"the jump back is assembled for a source address other than placeholder+len(relocated bytes): its rel32 displacement is computed from the wrong place")
-		r.Check(ok1, "C03.R2", "jump-back destination in "+shortName(tb), p.Pos(posOf(jb)), "origin + consumed input length",
+		r.Check(ok1, "C03.R2", "jump-back destination in "+shortName(gen), p.Pos(posOf(jb)), "origin + consumed input length",
 			"the jump back does not target origin+consumed input length (it uses the output length or the wrong base): execution resumes in the middle of an instruction or re-runs relocated ones")
 		// plain + for both
 		for k, a := range []ssa.Value{a0, a1} {
@@ -199,14 +241,30 @@ func c03(c *Ctx) {
 		}
 		// the jump-back is appended to the relocated bytes and that is what gets written
 		okApp := false
-		for _, a := range origins(wsite.Call.Common().Args[1]) {
-			if cl, ok := a.V.(*ssa.Call); ok {
-				if bi, ok := cl.Call.Value.(*ssa.Builtin); ok && bi.Name() == "append" {
-					if dependsOn(cl.Call.Args[0], ext(0)) && resolveLocal(cl.Call.Args[1]) == ssa.Value(jb) {
-						okApp = true
+		for _, ls := range lifted {
+			if ls.Vals[1] == nil {
+				continue
+			}
+			ats := originsDeep(ls.Vals[1], 3)
+			isPar := false
+			for _, a := range ats {
+				if pr, ok := a.V.(*ssa.Parameter); ok && a.Kind == "param" && pr.Parent() == ls.Fn {
+					isPar = true
+				}
+			}
+			if isPar {
+				continue // look one level up
+			}
+			for _, a := range ats {
+				if cl, ok := a.V.(*ssa.Call); ok {
+					if bi, ok := cl.Call.Value.(*ssa.Builtin); ok && bi.Name() == "append" {
+						if dependsOn(cl.Call.Args[0], ext(0)) && resolveLocal(cl.Call.Args[1]) == ssa.Value(jb) {
+							okApp = true
+						}
 					}
 				}
 			}
+			break
 		}
 		r.Check(okApp, "C03.R2", "written bytes = relocated bytes + jump back in "+shortName(tb), p.Pos(posOf(wsite.Call)), "append(relocated, jumpBack...)",
 			"the bytes written into the placeholder are not the relocated instructions followed by the jump back")
@@ -325,15 +383,35 @@ func c03(c *Ctx) {
 		}
 	}
 	// ---- R5 placeholder re-pointed
-	okRet := true
-	for _, ret := range returnsOf(tb) {
-		if ei := errIndex(tb.Signature); ei >= 0 && isNilConst(retResult(ret, ei)) {
-			if resolveLocal(retResult(ret, 0)) != resolveLocal(wsite.Call.Common().Args[0]) {
-				okRet = false
+	// the value recorded as the relocated-origin address is the address the relocated code was written to: compare, in the
+	// function that records it, the provenance of the stored value with that of the (lifted) write address
+	okRet, nRet := true, 0
+	if pf := p.patchRoles().PFixOrigin; pf != nil {
+		for _, fs := range storesToField(p.Funcs, func(fv *types.Var, _ ssa.Value) bool { return fv == pf }) {
+			for _, ls := range lifted {
+				if ls.Fn != fs.Fn || ls.Vals[0] == nil {
+					continue
+				}
+				nRet++
+				want := map[ssa.Value]bool{}
+				for _, a := range originsDeep(ls.Vals[0], 4) {
+					want[a.V] = true
+				}
+				for _, a := range originsDeep(fs.Store.Val, 4) {
+					if c, isC := a.V.(*ssa.Const); isC && a.Kind == "const" && (c.Value == nil || c.Int64() == 0) {
+						continue // the zero returned beside an error
+					}
+					if !want[a.V] {
+						okRet = false
+					}
+				}
 			}
 		}
 	}
-	r.Check(okRet, "C03.R5", shortName(tb)+" returns the address it wrote", p.Pos(tb.Pos()), "result = placeholder address", "the trampoline builder returns an address other than the one the relocated code was written to")
+	if nRet == 0 {
+		okRet = false
+	}
+	r.Check(okRet, "C03.R5", "recorded relocated-origin address is the address written in "+shortName(tb), p.Pos(tb.Pos()), "value stored = placeholder address of the text write", "the address recorded as the relocated origin is not the one the relocated code was written to")
 	gt := guardType(p)
 	pt := p.patchRoles().Patch
 	if gt != nil && pt != nil && p.patchRoles().GFixOrigin != nil && p.patchRoles().PFixOrigin != nil {
